@@ -293,20 +293,35 @@ func nsEntriesText(es []nsEntry, sep string) string {
 // plain walk over the generator's own trees)
 
 // nsDefs: every path an entry says something about -> kind there
-// ('m'/'l' namespace, 'p' primitive, 'n' nil).
-func nsDefs(e nsEntry) map[string]byte {
+// ('m'/'l' namespace, 'p' primitive, 'n' nil). A key that contains the
+// separator counts as the segments it is split into.
+func nsDefs(e nsEntry, sep string) map[string]byte {
 	out := map[string]byte{}
-	for i := 1; i < len(e.path); i++ {
-		out[strings.Join(e.path[:i], "\x00")] = 'm' // implied namespace
-	}
-	var walk func(p []string, n *nsNode)
-	walk = func(p []string, n *nsNode) {
-		out[strings.Join(p, "\x00")] = n.kind
-		for i, k := range n.kids {
-			walk(append(append([]string(nil), p...), n.key(i)), k)
+	var path []string
+	push := func(key string) {
+		for _, s := range strings.Split(key, sep) {
+			if len(path) > 0 {
+				if _, ok := out[strings.Join(path, "\x00")]; !ok {
+					out[strings.Join(path, "\x00")] = 'm' // implied namespace
+				}
+			}
+			path = append(path, s)
 		}
 	}
-	walk(e.path, e.val)
+	for _, s := range e.path {
+		push(s)
+	}
+	var walk func(n *nsNode)
+	walk = func(n *nsNode) {
+		out[strings.Join(path, "\x00")] = n.kind
+		for i, k := range n.kids {
+			l := len(path)
+			push(n.key(i))
+			walk(k)
+			path = path[:l]
+		}
+	}
+	walk(e.val)
 	return out
 }
 
@@ -323,10 +338,10 @@ var colNames = []string{"disjoint", "shared-namespace-only", "nil-meets-value", 
 // nsCollision classifies an input by the strongest thing two of its entries
 // say about one path; deeperFirst: in the strongest pair the entry with the
 // longer spelled path comes first.
-func nsCollision(es []nsEntry) (class int, deeperFirst bool) {
+func nsCollision(es []nsEntry, sep string) (class int, deeperFirst bool) {
 	defs := make([]map[string]byte, len(es))
 	for i, e := range es {
-		defs[i] = nsDefs(e)
+		defs[i] = nsDefs(e, sep)
 	}
 	for i := range es {
 		for j := i + 1; j < len(es); j++ {
@@ -396,6 +411,30 @@ func nsTag(name, suffix string) string {
 type nsPresentation struct {
 	name  string
 	build func(es []nsEntry, vals []interface{}, sep string, sfx []string) interface{}
+	// eff: the entries as this presentation hands them over, if it moves
+	// them to other paths (nil = as they are, possibly below a common prefix)
+	eff func(es []nsEntry) []nsEntry
+}
+
+// nsInlinedEntries: what struct-of-inline-values makes of the entries - the
+// first one keeps its name, the others lose their first segment; an object
+// that is left without a name is spread key by key, anything else without a
+// name defines nothing.
+func nsInlinedEntries(es []nsEntry) []nsEntry {
+	var out []nsEntry
+	for i, e := range es {
+		switch {
+		case i == 0:
+			out = append(out, e)
+		case len(e.path) > 1:
+			out = append(out, nsEntry{e.path[1:], e.val})
+		case e.val.kind == 'm':
+			for j, k := range e.val.kids {
+				out = append(out, nsEntry{[]string{e.val.keys[j]}, k})
+			}
+		}
+	}
+	return out
 }
 
 func nsTaggedFields(es []nsEntry, vals []interface{}, sep string, sfx []string, typed bool) []nsField {
@@ -413,17 +452,17 @@ func nsTaggedFields(es []nsEntry, vals []interface{}, sep string, sfx []string, 
 var nsPresentations = []nsPresentation{
 	{"struct-tagged-fields", func(es []nsEntry, vals []interface{}, sep string, sfx []string) interface{} {
 		return nsStruct(nsTaggedFields(es, vals, sep, sfx, false))
-	}},
+	}, nil},
 	{"struct-typed-tagged-fields", func(es []nsEntry, vals []interface{}, sep string, sfx []string) interface{} {
 		return nsStruct(nsTaggedFields(es, vals, sep, sfx, true))
-	}},
+	}, nil},
 	{"struct-of-inline-one-key-maps", func(es []nsEntry, vals []interface{}, sep string, sfx []string) interface{} {
 		var fs []nsField
 		for i, e := range es {
 			fs = append(fs, nsField{nsTag("", ",inline"), tStrMap, map[string]interface{}{strings.Join(e.path, sep): vals[i]}})
 		}
 		return nsStruct(fs)
-	}},
+	}, nil},
 	{"struct-of-inline-values", func(es []nsEntry, vals []interface{}, sep string, sfx []string) interface{} {
 		// objects are spread into the holder; the first entry keeps its name
 		var fs []nsField
@@ -439,13 +478,13 @@ var nsPresentations = []nsPresentation{
 			fs = append(fs, nsField{nsTag("", ",inline"), tIface, v})
 		}
 		return nsStruct(fs)
-	}},
+	}, nsInlinedEntries},
 	{"struct-under-key", func(es []nsEntry, vals []interface{}, sep string, sfx []string) interface{} {
 		return map[string]interface{}{"n": nsStruct(nsTaggedFields(es, vals, sep, sfx, false))}
-	}},
+	}, nil},
 	{"struct-in-list", func(es []nsEntry, vals []interface{}, sep string, sfx []string) interface{} {
 		return []interface{}{1, nsStruct(nsTaggedFields(es, vals, sep, sfx, false))}
-	}},
+	}, nil},
 	{"struct-inlined-in-struct", func(es []nsEntry, vals []interface{}, sep string, sfx []string) interface{} {
 		// the first entry in the outer struct, the others in an inlined inner struct
 		if len(es) < 2 {
@@ -458,21 +497,21 @@ var nsPresentations = []nsPresentation{
 		outer := nsTaggedFields(es[:1], vals[:1], sep, sfx[:1], false)
 		outer = append(outer, nsField{nsTag("", ",inline"), reflect.TypeOf(inner), inner})
 		return nsStruct(outer)
-	}},
+	}, nil},
 	{"map-filled-in-order", func(es []nsEntry, vals []interface{}, sep string, sfx []string) interface{} {
 		out := map[string]interface{}{}
 		for i, e := range es {
 			out[strings.Join(e.path, sep)] = vals[i]
 		}
 		return out
-	}},
+	}, nil},
 	{"interface-keyed-map-filled-in-order", func(es []nsEntry, vals []interface{}, sep string, sfx []string) interface{} {
 		out := map[interface{}]interface{}{}
 		for i, e := range es {
 			out[strings.Join(e.path, sep)] = vals[i]
 		}
 		return out
-	}},
+	}, nil},
 }
 
 type nsOpt struct {
@@ -582,9 +621,8 @@ func runRespelled(m *mon, r *rand.Rand, seed int64, tier string, k int) {
 	}
 	valSeed := r.Int63()
 
-	class, _ := nsCollision(es)
+	class, _ := nsCollision(es, sep)
 	cname := colNames[class]
-	sigClass := "respelled-namespace/" + cname
 	res.Key("E|" + sep + "|" + nsEntriesText(es, sep))
 	res.SetAdd("input_class", "respelled-namespace/"+cname)
 	res.SetAdd("e_collision_class", cname)
@@ -658,7 +696,7 @@ func runRespelled(m *mon, r *rand.Rand, seed int64, tier string, k int) {
 				osfx[len(sfx)-1-i] = sfx[i]
 			}
 		}
-		if c, deeperFirst := nsCollision(order); c == colObjectVsPrimitive {
+		if c, deeperFirst := nsCollision(order, sep); c == colObjectVsPrimitive {
 			if deeperFirst {
 				res.Ev("e_object_vs_primitive_longer_path_first", 1)
 			} else {
@@ -690,6 +728,16 @@ func runRespelled(m *mon, r *rand.Rand, seed int64, tier string, k int) {
 			}
 			for _, p := range nsPresentations {
 				p := p
+				// what the entries say about shared paths, as this presentation hands them over
+				eff, effText := order, ""
+				if p.eff != nil {
+					eff = p.eff(order)
+					effText = "  = as handed over: " + nsEntriesText(eff, sep)
+				}
+				pc, _ := nsCollision(eff, sep)
+				pcname := colNames[pc]
+				sigClass := "respelled-namespace/" + pcname
+				res.SetAdd("e_presentation_x_collision", p.name+"/"+pcname)
 				var in interface{}
 				m.do(call{entry: "NewFrom", class: sigClass, bound: bound, desc: func() string { return "building the values of " + nsEntriesText(order, sep) }}, func() {
 					in = p.build(order, mkVals(), sep, osfx)
@@ -700,7 +748,7 @@ func runRespelled(m *mon, r *rand.Rand, seed int64, tier string, k int) {
 				}
 				res.SetAdd("e_presentation", p.name)
 				d := func() string {
-					return fmt.Sprintf("%s, %s, options %s (separator %q): %s  [T = %s, T' = %s]", p.name, oname, o.name, sep, nsEntriesText(order, sep), nsText(t), nsText(t2))
+					return fmt.Sprintf("%s, %s, options %s (separator %q): %s%s  [T = %s, T' = %s]", p.name, oname, o.name, sep, nsEntriesText(order, sep), effText, nsText(t), nsText(t2))
 				}
 				var c *ucfg.Config
 				var err error
@@ -711,7 +759,7 @@ func runRespelled(m *mon, r *rand.Rand, seed int64, tier string, k int) {
 				case err != nil || c == nil:
 					res.Ev("e_newfrom_refused", 1)
 					if o.pathed {
-						res.Ev("e_newfrom_refused_"+strings.ReplaceAll(cname, "-", "_"), 1)
+						res.Ev("e_newfrom_refused_"+strings.ReplaceAll(pcname, "-", "_"), 1)
 					}
 				default:
 					res.Ev("e_newfrom_accepted", 1)
@@ -742,6 +790,8 @@ func runRespelled(m *mon, r *rand.Rand, seed int64, tier string, k int) {
 		// the entries as documents, keys in this order (separator ".")
 		dr := rand.New(rand.NewSource(valSeed))
 		top := nsDocNode(dr, order)
+		dc, _ := nsCollision(order, ".")
+		dcname := colNames[dc]
 		for _, format := range []string{"json", formats[1+r.Intn(len(formats)-1)]} {
 			doc := render(top, format, dr)
 			if len(doc) > 4000 {
@@ -749,7 +799,7 @@ func runRespelled(m *mon, r *rand.Rand, seed int64, tier string, k int) {
 			}
 			res.SetAdd("e_document_format", format)
 			res.Ev("e_documents", 1)
-			loadAndReadC(m, doc, "respelled-namespace/"+cname+"/"+format, sigClass, false)
+			loadAndReadC(m, doc, "respelled-namespace/"+dcname+"/"+format, "respelled-namespace/"+dcname, false)
 		}
 	}
 	res.Ev("e_respelled_cases", 1)
